@@ -101,10 +101,15 @@ func (d *Decimal) Compose(form byte, negative bool, coefficient []byte, exponent
 	case 1:
 		d.Form = Infinite
 		d.Negative = negative
+		// Do not leave the previous value's digits behind.
+		d.Coeff.SetInt64(0)
+		d.Exponent = 0
 		return nil
 	case 2:
 		d.Form = NaN
 		d.Negative = negative
+		d.Coeff.SetInt64(0)
+		d.Exponent = 0
 		return nil
 	}
 	// Finite form.
